@@ -1,9 +1,14 @@
 #!/bin/bash
-# Offline setup: warm the build caches (std, -race runtime, harness deps). Nothing is fetched.
+# Offline setup: warm the build caches (std, -race runtime, harness deps) for the claimed checks.
+# Nothing is fetched; every check rebuilds from /repo's working tree when it runs, so a failure
+# here only costs time later and is not fatal.
 export GOFLAGS=-mod=mod GOPROXY=off GOSUMDB=off GOTOOLCHAIN=local
 cd /verif/harness || exit 1
-go1.26.8 build -tags verif ./... || exit 1
-for p in c11 c17 c18; do
-  [ -d "$p" ] && { go1.26.8 build -race -tags verif -o /dev/null ./$p || exit 1; }
+for id in $(cat /verif/BUILT); do
+  p=$(echo "$id" | tr 'A-Z' 'a-z')
+  [ -d "$p" ] || continue
+  race=""
+  case "$id" in C11|C17|C18) race="-race";; esac
+  go1.26.8 build -tags verif $race -o /dev/null ./$p || echo "setup: warm-up build of $p failed (the check will report it)"
 done
 exit 0
